@@ -120,6 +120,6 @@ BadState ==
           [] n = "C19_FaultRaises" -> ~C19_FaultRaises}
 ReportState ==
     (l > 1 /\ BadState # {}) =>
-        PrintT(<<"TRACE", ToJson([t |-> tid, l |-> l - 1, bo |-> {}, bi |-> BadState])>>)
+        PrintT(<<"TRACE", ToJson([t |-> tid, l |-> l - 1, bo |-> {}, bi |-> BadState, st |-> TRUE])>>)
 
 ====
